@@ -112,7 +112,18 @@ pub fn catch<T>(f: impl FnOnce() -> T) -> Result<T, PanicInfo> {
 
 pub struct CountingAlloc;
 
+/// Hard cap on what one monitored call may hold above its baseline.  Far above any bound a
+/// property states (the decoders' bound is 24 MiB + 64 n); its only purpose is to turn "the
+/// operating system killed the process for lack of memory" into a reportable observation: the
+/// offending thread is parked inside the allocator and the watchdog thread reports the case.
+pub const HARD_CAP_BYTES: isize = 2 << 30;
+pub static MEM_BREACH_CLOCK: std::sync::atomic::AtomicI64 = std::sync::atomic::AtomicI64::new(-1);
+pub static MEM_BREACH_BYTES: std::sync::atomic::AtomicU64 = std::sync::atomic::AtomicU64::new(0);
+
 thread_local! {
+    /// Baseline of the active measurement window on this thread (isize::MIN = no window).
+    static WINDOW_BASE: Cell<isize> = const { Cell::new(isize::MIN) };
+    static MY_CLOCK: Cell<i64> = const { Cell::new(-1) };
     static CUR: Cell<isize> = const { Cell::new(0) };
     static PEAK: Cell<isize> = const { Cell::new(0) };
     static ALLOCS: Cell<u64> = const { Cell::new(0) };
@@ -124,6 +135,16 @@ fn on_alloc(size: usize) {
     let _ = CUR.try_with(|c| {
         let v = c.get() + size as isize;
         c.set(v);
+        let base = WINDOW_BASE.try_with(|b| b.get()).unwrap_or(isize::MIN);
+        if base != isize::MIN && v - base > HARD_CAP_BYTES {
+            // park this thread (no allocation, no locks held) and let the watchdog report
+            let clock = MY_CLOCK.try_with(|k| k.get()).unwrap_or(-1);
+            MEM_BREACH_BYTES.store((v - base) as u64, std::sync::atomic::Ordering::SeqCst);
+            MEM_BREACH_CLOCK.store(clock, std::sync::atomic::Ordering::SeqCst);
+            loop {
+                std::thread::sleep(std::time::Duration::from_secs(3600));
+            }
+        }
         let _ = PEAK.try_with(|p| {
             if v > p.get() {
                 p.set(v)
@@ -175,6 +196,7 @@ unsafe impl GlobalAlloc for CountingAlloc {
 /// Start a measurement window on this thread: peak := current, largest := 0.
 pub fn alloc_window_begin() -> isize {
     let cur = CUR.with(|c| c.get());
+    WINDOW_BASE.with(|b| b.set(cur));
     PEAK.with(|p| p.set(cur));
     LARGEST.with(|l| l.set(0));
     cur
@@ -182,6 +204,7 @@ pub fn alloc_window_begin() -> isize {
 
 /// Peak bytes above the baseline returned by `alloc_window_begin`, and the largest single request.
 pub fn alloc_window_end(baseline: isize) -> (usize, usize) {
+    WINDOW_BASE.with(|b| b.set(isize::MIN));
     let peak = PEAK.with(|p| p.get());
     let largest = LARGEST.with(|l| l.get());
     ((peak - baseline).max(0) as usize, largest)
@@ -305,6 +328,7 @@ pub fn case_begin(op: &str, family: &str, input: &[u8]) {
             if let Ok(mut r) = REGISTRY.lock() {
                 r.push(Registered { clock, slot: slot.clone() });
             }
+            MY_CLOCK.with(|k| k.set(clock as i64));
             *s = Some((clock, slot));
         }
         if let Some((clock, slot)) = s.as_ref() {
@@ -338,8 +362,22 @@ pub fn case_end() {
 /// case that exceeds `budget_s` of CPU time; it is expected to report and exit the process.
 pub fn start_cpu_watchdog(budget_s: u64, on_stuck: impl Fn(&str, &str, &[u8], u64) + Send + 'static) {
     std::thread::spawn(move || loop {
-        std::thread::sleep(std::time::Duration::from_millis(500));
+        std::thread::sleep(std::time::Duration::from_millis(200));
         let Ok(reg) = REGISTRY.lock() else { continue };
+        let breach = MEM_BREACH_CLOCK.load(std::sync::atomic::Ordering::SeqCst);
+        if breach != -1 {
+            let bytes = MEM_BREACH_BYTES.load(std::sync::atomic::Ordering::SeqCst);
+            for r in reg.iter() {
+                if r.clock as i64 == breach {
+                    if let Ok(g) = r.slot.lock() {
+                        // cpu_seconds = u64::MAX marks "memory", the byte count goes in the op text
+                        let op = format!("{}|MEM|{}", g.op, bytes);
+                        on_stuck(&op, &g.family, &g.input, u64::MAX);
+                        return;
+                    }
+                }
+            }
+        }
         for r in reg.iter() {
             let Ok(g) = r.slot.lock() else { continue };
             if !g.active {
